@@ -28,7 +28,7 @@ for l in open(os.path.join(VERIF, "properties.jsonl")):
     except OSError:
         pass
     cov = ev.get("coverage", {})
-    tie = "T+H" if hasattr(m, "regenerate") or pid in ("C05", "C13") else "H"
+    tie = "T+H" if hasattr(m, "regenerate") or pid in ("C05", "C13", "C15") else "H"
     co = len(getattr(m, "CORRESPONDENCE_ONLY", [])); uo = len(getattr(m, "UNPROVED_OBSERVED", []))
     f = find.get(pid, {"fixed": 0, "known": 0}); s = seed.get(pid, [0, 0])
     print("| %s | %s | %s | %s | %d / %d | %d / %d | %d / %d | %s |" % (pid, "yes" if getattr(m, "CLAIMED", False) else "parked", tie,
